@@ -21,6 +21,8 @@ PROPS = {
     "C02": {
         "theorems": {**thms(P + "C02", ["C02_decrypt_is_spec", "C02_mic_is_spec", "C14_involution", "C14_only_payload"]),
                      "LospanVerif.Props.C02Recover": ["LospanVerif.Props.C02.C02_accept_and_recover", "LospanVerif.Props.C02.crypt_crypt", "LospanVerif.Props.C02.unmarshal_mtype"],
+                     **thms(P + "C12Total", ["C02_device_frames_accepted", "buildFrame_parses"]),
+                     **thms("LospanVerif.Proofs.Total", ["unmarshal_of_parse", "decodeLoop_total"]),
                      **thms(P + "C12Enc", ["C12_marshal_is_layout"])},
         "ties": thms(T + "Protocol", ["tie_minimumMessageSize", "tie_mtypes", "tie_devAddrMasks"]),
         "engines": ["uplink", "phyenc", "pipeseq"],
@@ -102,6 +104,8 @@ PROPS = {
     "C12": {
         "theorems": {**thms(P + "C12", ["C12_decode_fields", "C12_reject_version", "C12_reject_mtype", "C12_contained"]),
                      **thms(P + "C12Enc", ["C12_marshal_is_layout", "C12_roundtrip"]),
+                     **thms(P + "C12Total", ["C12_accepts_spec_frames", "C12_roundtrip_total"]),
+                     **thms("LospanVerif.Proofs.Total", ["unmarshal_of_parse", "unmarshal_total", "decodeLoop_total"]),
                      "LospanVerif.Proofs.Frame": ["LospanVerif.Spec.Frame.parse_layout"]},
         "ties": thms(T + "Protocol", ["tie_minimumMessageSize", "tie_maxFOptsLen", "tie_maxPayloadSize", "tie_mtypes", "tie_maxSupportedVersion", "tie_devAddrMasks"]),
         "engines": ["phydec", "phyenc"],
@@ -179,9 +183,9 @@ MANIFEST_TEXT = {
         "technique": "Lean 4 proof (decision logic stated outright) + regenerated handler skeleton tie + state-by-state correspondence on the real pipeline",
     },
     "C02": {
-        "level": "Lean theorems for every block cipher E with 16-octet blocks, all keys, addresses, counters, ports, flags, FOpts octets and payloads: a frame a conformant device builds for an application port (Spec.Lorawan.buildFrame: FRMPayload encrypted in counter mode per 4.3.3, MIC per 4.4), once the library's decoder has accepted it, verifies under the NwkSKey over exactly the received octets and decrypts to exactly the device's plaintext with the device's address, counter and port (C02_accept_and_recover); the library's payload cipher and MIC are the specification's (C02_decrypt_is_spec, C02_mic_is_spec via C14_eq_rfc4493); the octets the library encodes are the specification's layout (C12_marshal_is_layout). That the decoder does accept every such frame (all lengths 0..242, every port and flag combination, FOpts of known and unknown identifiers) and that the pipeline hands exactly the plaintext, device, gateway and radio metadata to the application is decided on the real code (engines uplink, phyenc, pipeseq with the reference observer).",
-        "note": "partial: acceptance by the decoder of every device-built frame is a hypothesis of C02_accept_and_recover, discharged by differential runs, not by a theorem; AES itself is a parameter",
-        "technique": "Lean 4 proof (model = spec for cipher, MIC and layout; spec round trip; composition) + differential correspondence against the Lean device",
+        "level": "Lean theorems for every block cipher E with 16-octet blocks, all keys, 32-bit addresses, 16-bit counters, ports 1..255, flag combinations, FOpts octets (up to 15, known or unknown identifiers) and payloads: every data frame a conformant device builds for an application port (Spec.Lorawan.buildFrame: FRMPayload encrypted in counter mode per 4.3.3, MIC per 4.4) IS ACCEPTED by the library's decoder, verifies under the NwkSKey over exactly the received octets and decrypts to exactly the device's plaintext with the device's address, counter and port (C02_device_frames_accepted = decoder totality on spec-parsable frames (Proofs/Total.lean) + spec round trip + C12_decode_fields + C02_mic_is_spec + C02_decrypt_is_spec + involution); the octets the library encodes are the specification's layout (C12_marshal_is_layout). That the pipeline hands exactly that plaintext, device, gateway and radio metadata to the application is decided on the real code (engine pipeseq with the reference observer); engines uplink and phyenc run the same statements differentially on the implementation.",
+        "note": "partial: AES itself is a parameter (the driver's Lean AES is differential-tested against crypto/aes); attribution to device/gateway/radio metadata in the inbox is an oracle on the implementation plus trace correspondence, not a theorem",
+        "technique": "Lean 4 proof (model = spec for cipher, MIC and layout; decoder totality; spec round trip; composition) + differential correspondence against the Lean device",
     },
     "C03": {
         "level": "Lean theorems for EVERY event list of the pipeline transition system (all interleavings of handler/scheduler/sendAt/encoder steps at storage-operation granularity, any number of frames, devices and gateways, injected faults, crashes): no (device, FCnt) of a running counter epoch is written to the inbox twice for a strict-counter device, and every recorded one went through a successful conditional counter update (C03_recorded_once: thread-pool invariant 'every counter in circulation - carried by a handler between the counter step and the inbox insert, or already recorded - was accepted, at most once', Proofs/Circ.lean); the counters accepted for a device strictly increase within a session and stay below the stored one (C03_accepted_strictly_increasing, C03_accepted_below_stored), so a copy or an older counter can never move the counter again (C03_no_second_acceptance). Tied by regenerated facts (handler call order and error dispositions, SQL text of the conditional update) and by trace validation of the real goroutines under controlled schedules (copies, uplink vs encoder), plus sequential histories judged by a reference observer.",
@@ -229,9 +233,9 @@ MANIFEST_TEXT = {
         "technique": "Lean 4 proof (totality by induction, cursor invariant) + regenerated-facts tie + differential correspondence",
     },
     "C12": {
-        "level": "Lean theorems, both directions: for every byte string an accepted data frame parses under the independent LoRaWAN 1.0 spec and every reported field equals the spec's (C12_decode_fields; port-0 remainder: containment), nothing is reported beyond the slice (C12_contained), unsupported version/type are rejected; for every value the library encodes the octets are exactly the spec layout of the frame it denotes (C12_marshal_is_layout); the spec's parse inverts its layout on well-formed frames (Spec.Frame.parse_layout), hence decode(encode(p)) reports the encoded fields (C12_roundtrip). Tied by constants/masks facts and by differential runs in both directions (all MHDR/FCtrl values, FOpts shapes, ports, lengths 0..242).",
-        "note": "model hand-written; C12_roundtrip assumes the decode succeeds (totality of decode on the library's own output is exercised by the phyenc engine, not proved)",
-        "technique": "Lean 4 proof (model = spec parse and model = spec layout, list/cursor arithmetic by omega, byte laws by decide) + differential correspondence",
+        "level": "Lean theorems, both directions and total: every octet string the LoRaWAN 1.0 specification parses as a data frame (FPort absent or not 0) is accepted by the library and every reported field equals the specification's (C12_accepts_spec_frames = decoder totality, Proofs/Total.lean, + C12_decode_fields; for FPort 0 the remainder is contained in the FRMPayload); nothing is reported beyond the slice (C12_contained); unsupported version/type are rejected; for every value the library encodes the octets are exactly the spec layout of the frame it denotes (C12_marshal_is_layout); the spec's parse inverts its layout (Spec.Frame.parse_layout); hence decode(encode(p)) succeeds and reports the encoded fields (C12_roundtrip_total). Tied by constants/masks facts and by differential runs in both directions (all MHDR/FCtrl values, FOpts shapes, ports, lengths 0..242).",
+        "note": "model hand-written and tied by facts + correspondence; acceptance of FPort-0 frames (MAC commands in the payload) is covered by no-panic and containment theorems and by the phydec engine, not by the totality theorem",
+        "technique": "Lean 4 proof (model = spec parse, model = spec layout, decoder totality by loop invariant, list/cursor arithmetic by omega, byte laws by decide) + differential correspondence",
     },
     "C13": {
         "level": "Lean theorems: each of the 22 commands has the spec's CID/direction, its declared length, the spec's octets for all fitting values (C13_layout), decodes back (C13_roundtrip_fields); Add preserves limit/direction/CID-order for every offer sequence (C13_reachable_inv); encode writes exactly EncodedLength bytes. Tied by the regenerated CID/type/Length table and by exhaustive (<=12 bits quick, <=24 bits thorough) differential encode/decode through the public frame path.",
